@@ -19,9 +19,16 @@ fuelled: one unit per container level, and `underlying` one unit per typedef hop
 `old.fuel + new.fuel` suffices on well-formed programs (that is part of `WF`); running out
 of fuel corresponds to the stack overflow of the real code on cyclic typedefs.
 
-Deliberate limits: include-qualified names are plain names here (single-file programs; the
-wrong-file resolution of a second typedef hop behind an include is the known finding shared
-with C02); `underlying` does not look up reserved words (`base`, containers) among typedefs.
+Includes: a name `inc.n` (`Ty.qual`) is looked up only in the typedefs of the included file
+`inc` (`typedefTarget`); the body found there is resolved further in the INCLUDING file, as
+the code does — right only when that body mentions no names (`WF`; a second hop or any name
+inside an include is the recorded finding shared with C02/C11). Only the main file's
+declarations are audited; struct/enum names of an include are compared as written (`inc.n`).
+`underlying` does not look up reserved words (`base`, containers) among typedefs.
+
+The command line (`main.go`): `frugal -audit old f1 … fk` audits every file against `old` with
+one shared auditor whose logger's error flag is sticky, and exits 1 at the first failure:
+`cliAudit`.
 -/
 import FV.Model.Idl
 
@@ -56,16 +63,22 @@ def forOld (olds : List α) (news : List β) (same : α → β → Bool)
 /-! ### checkType -/
 
 /-- `Frugal.UnderlyingType`: follow typedefs at the head of the type. -/
-def underlying (tds : List Typedef) : Nat → Ty → Ty
+def underlying (tds : TEnv) : Nat → Ty → Ty
   | 0, t => t
   | f + 1, .named n =>
-    match lookupTd tds n with
+    match tds.loc n with
     | some body => underlying tds f body
     | none => .named n
+  | f + 1, .qual i n =>
+    -- `inc.n`: only `ParsedIncludes[inc].typedefIndex`; the body found there is then resolved
+    -- further in the including file (as the code does)
+    match tds.inInc i n with
+    | some body => underlying tds f body
+    | none => .qual i n
   | _ + 1, t => t
 
 /-- Number of "types not equal" messages `checkType` logs for two non-nil types. -/
-def tyMismatches (otds ntds : List Typedef) : Nat → Ty → Ty → Nat
+def tyMismatches (otds ntds : TEnv) : Nat → Ty → Ty → Nat
   | 0, _, _ => 0
   | f + 1, a, b =>
     match underlying otds (f + 1) a, underlying ntds (f + 1) b with
@@ -74,20 +87,21 @@ def tyMismatches (otds ntds : List Typedef) : Nat → Ty → Ty → Nat
     | .map k v, .map k' v' => tyMismatches otds ntds f k k' + tyMismatches otds ntds f v v'
     | .base n, .base m => if n = m then 0 else 1
     | .named n, .named m => if n = m then 0 else 1
+    | .qual i n, .qual j m => if i = j ∧ n = m then 0 else 1
     | _, _ => 1
 
 /-- `checkType` including its nil guard (a nil type is a `void` return type). -/
-def tyMismatchesO (otds ntds : List Typedef) (fuel : Nat) : Option Ty → Option Ty → Nat
+def tyMismatchesO (otds ntds : TEnv) (fuel : Nat) : Option Ty → Option Ty → Nat
   | none, none => 0
   | some a, some b => tyMismatches otds ntds fuel a b
   | _, _ => 1
 
 structure Ctx where
-  otds : List Typedef
-  ntds : List Typedef
+  otds : TEnv
+  ntds : TEnv
   fuel : Nat
 
-def Ctx.of (old new : Prog) : Ctx := ⟨old.typedefs, new.typedefs, old.fuel + new.fuel⟩
+def Ctx.of (old new : Prog) : Ctx := ⟨old.env, new.env, old.fuel + new.fuel⟩
 
 def checkType (c : Ctx) (warn : Bool) (a b : Option Ty) : List Finding :=
   List.replicate (tyMismatchesO c.otds c.ntds c.fuel a b) (if warn then .warning .type else .error .type)
@@ -201,5 +215,19 @@ def audit (old new : Prog) : List Finding :=
 
 /-- `Audit` returns an error iff an error was logged. -/
 def auditFails (old new : Prog) : Bool := (audit old new).any Finding.isError
+
+/-- `main.go`, the `-audit` loop: one auditor for all files (its `errorsLogged` flag is never
+reset), `os.Exit(1)` as soon as an `Audit` call returns an error. `true` = exit status 1. -/
+def cliLoop (old : Prog) : Bool → List Prog → Bool
+  | _, [] => false
+  | sticky, f :: fs =>
+    let failed := sticky || auditFails old f
+    if failed then true else cliLoop old failed fs
+
+def cliAudit (old : Prog) (files : List Prog) : Bool := cliLoop old false files
+
+/-- Index of the file named in the `FAILED: audit of …` line (the first failing one). -/
+def cliFirstFailing (old : Prog) (files : List Prog) : Option Nat :=
+  files.findIdx? (auditFails old)
 
 end FV.Audit
